@@ -39,7 +39,7 @@ LEVEL_TEXT = {
             "Trusted: Kani/CBMC; Rust's &mut exclusivity for the 'concurrent requests' part (select_target is only reachable through a Mutex); clock stub for Lcg::new."),
     "C10": ("Bounded model checking (Kani 0.68 -> CBMC 6.11 -> cadical) of the compiled real encoder/decoder against an RFC 6455 5.2 reference: header layout for every u64 length and every flag/opcode/key; decode of fully symbolic byte strings up to 16 bytes (every claimed length) and of frames with symbolic contents under whole/byte-wise/single-split read plans; encode->decode round trips. Holds for every value inside the listed shapes; nothing is claimed outside them.",
             "Trusted: Kani/CBMC semantics of Rust+std, the reference model kani/src/refs/ws.rs, harness code; read plans are concrete per harness (enumerated), payload sizes >= 126 bytes only via their headers."),
-    "C11": ("Bounded model checking of the real WebsocketStream/Message/Frame code over a scripted connection (TcpStream read/write stubbed): Close frames are reported as ConnectionClosed and answered by exactly one well-formed Close frame (nothing more on drop); a Ping is answered by one Pong with the same payload; send()/ping() write exactly one well-formed unmasked frame each; non-blocking receive reports `nothing yet` only when no byte arrived and handles a header split across two reads like blocking receive. Symbolic keys/payloads (<= 2-3 bytes), whole / byte-wise / single-split delivery. NOT decided: message assembly from data frames and fragments (CBMC out of memory), the opening handshake.",
+    "C11": ("Bounded model checking of the real WebsocketStream/Message/Frame code over a scripted connection (TcpStream read/write stubbed): Close frames are reported as ConnectionClosed and answered by exactly one well-formed Close frame (nothing more on drop); a Ping is answered by one Pong with the same payload; send()/ping() write exactly one well-formed unmasked frame each; non-blocking receive reports `nothing yet` only when no byte arrived and handles a header split across two reads like blocking receive. Symbolic keys/payloads (<= 2-3 bytes), whole / byte-wise / single-split delivery. Message assembly (CBMC runs out of memory there) is decided by symbolic execution of the MIR of recv / recv_nonblocking / Drop (and Message::from_stream*, Frame::from_stream*, From<Frame> for Vec<u8>) on client scripts of 1..4 frames (thorough: 5) with concrete shape (payload lengths 0..126 (300) incl. 125/126, all three length forms, mask bit, truncation, bytes delivered before a non-blocking call) and symbolic FIN/RSV/opcode, keys and payload bytes: for every RFC-valid control sequence compatible with a path (enumerated by z3) the delivered payload is the unmasked fragments in order, the text flag is the first fragment's, Pings are answered by Pongs and a Close by a Close as well-formed unmasked frames echoing the payload, the bytes consumed are exactly the frames delivered, blocking and non-blocking agree, `nothing yet` only when no frame has started, and drop sends one Close unless the peer closed; invalid scripts only get `no panic`. NOT decided: the opening handshake.",
             "Trusted: Kani/CBMC, the five network stubs listed in the evidence (scripted read plan, capture buffer), refs/ws.rs; allocator-model diagnostics are not verdicts."),
     "C16": ("Symbolic execution of the MIR of Cache::set and Cache::get (current tree) as an inductive step: from EVERY pre-state with 0..3 entries (thorough: 4) that satisfies the representation invariant (distinct keys, size bookkeeping = sum of lengths <= limit, times not after the clock), set(k, v) with len(v) <= limit never panics, keeps the invariant, leaves only unmodified old entries with other keys in their old order plus the new entry last, and get(k) at any later instant within the time limit returns exactly the stored item; get returns only an entry with the requested key that is not older than the time limit, and does return a matching fresh one. Counterexample pre-states are rebuilt natively through the verif hook and judged at property level.",
             "Trusted: the MIR executor and its models (VecDeque as a bounded sequence, strings by identity, Vec<u8> as length+tag, clock as non-decreasing integers), z3; Rust's &mut/RwLock exclusivity for the multi-thread clause; handler level (files on disk) is outside."),
